@@ -89,7 +89,41 @@ MSG = {
     "min_props": "property count lower than {} (minProperties)",
     "max_props": "property count greater than {} (maxProperties)",
 }
+TEXT = {"missing": "missing property", "unexpected": "unexpected property"}
 ORDER = list(MSG)
+
+# name of each message in apischema.settings.errors
+SETTINGS_ERRORS = {"min": "minimum", "max": "maximum", "exc_min": "exclusive_minimum", "exc_max": "exclusive_maximum", "mult_of": "multiple_of",
+                   "min_len": "min_length", "max_len": "max_length", "pattern": "pattern", "min_items": "min_items", "max_items": "max_items",
+                   "unique": "unique_items", "min_props": "min_properties", "max_props": "max_properties",
+                   "missing": "missing_property", "unexpected": "unexpected_property"}
+
+
+class custom_errors:
+    """Context manager: settings.errors.<name> = "E-<name> {}" for every message of SETTINGS_ERRORS (the library side) and the
+    same texts in MSG / TEXT (the model side); everything is restored on exit."""
+
+    def __enter__(self):
+        import apischema
+
+        self.saved_settings = {}
+        self.saved_msg, self.saved_text = dict(MSG), dict(TEXT)
+        for key, name in SETTINGS_ERRORS.items():
+            self.saved_settings[name] = getattr(apischema.settings.errors, name)
+            text = f"E-{name}" + (" {}" if "{}" in str(self.saved_settings[name]) else "")
+            setattr(apischema.settings.errors, name, text)
+            (MSG if key in MSG else TEXT)[key] = text
+        return self
+
+    def __exit__(self, *exc):
+        import apischema
+
+        for name, val in self.saved_settings.items():
+            setattr(apischema.settings.errors, name, val)
+        MSG.clear()
+        MSG.update(self.saved_msg)
+        TEXT.clear()
+        TEXT.update(self.saved_text)
 NUM_C = ("min", "max", "exc_min", "exc_max", "mult_of")
 STR_C = ("min_len", "max_len", "pattern")
 ARR_C = ("min_items", "max_items", "unique")
@@ -880,10 +914,10 @@ class Model:
                     values[f["n"]] = v
                     present.append(f["n"])
             elif req:
-                err.merge(Err(children={key: Err(["missing property"])}))
+                err.merge(Err(children={key: Err([TEXT["missing"]])}))
             elif requiring.get(f["n"]) and any(r in d for r in requiring[f["n"]]):
                 by = sorted(r for r in requiring[f["n"]] if r in d)
-                err.merge(Err(children={key: Err([f"missing property (required by {by})"])}))
+                err.merge(Err(children={key: Err([TEXT["missing"] + f" (required by {by})"])}))
         remain = [k for k in d if k not in all_aliases]
         for f in fields:
             if f.get("agg") == "flatten":
@@ -913,7 +947,7 @@ class Model:
         elif remain:
             if not self.o.additional_properties:
                 for k in remain:
-                    err.merge(Err(children={k: Err(["unexpected property"])}))
+                    err.merge(Err(children={k: Err([TEXT["unexpected"]])}))
             elif cd["flavor"] == "typeddict":
                 for k in remain:
                     values[k] = canon_json(d[k])
